@@ -17,6 +17,12 @@ import (
 // Real clusterState + real accrual detector on a harness clock.
 func c12Lifecycle(run *evid.Run) (cases int) {
 	const bootstrap = 200 // ms
+	notSwept := 0
+	defer func() {
+		if run.Violations() == 0 && notSwept == cases {
+			evid.Fatal("vacuous: no lifecycle case got as far as the returning node")
+		}
+	}()
 	for _, departure := range []string{"leave", "silent"} {
 		for _, before := range []int{1, 3, 60} { // arrivals of the first incarnation
 			for _, steady := range []int64{50, 100, 1000} { // its steady interval (ms)
@@ -41,7 +47,9 @@ func c12Lifecycle(run *evid.Run) (cases int) {
 					}
 					advance := func(ms int64) { fd.now = fd.now.Add(time.Duration(ms) * time.Millisecond) }
 					desc := fmt.Sprintf("first incarnation: %d arrivals every %dms, departure by %s, swept, same id heard again %ds later", before, steady, departure, away/1000)
+					failed := false
 					fail := func(sig, msg string) {
+						failed = true
 						run.Violation("C12", sig, desc+": "+msg, map[string]any{"engine": "E3-C12-life", "departure": departure, "arrivals": before, "interval_ms": steady, "away_ms": away})
 					}
 					for i := 0; i < before; i++ {
@@ -57,7 +65,8 @@ func c12Lifecycle(run *evid.Run) (cases int) {
 						advance(100 * steady * 21)
 						st.UpdateLiveness(float64(gossip.VSuspicionThreshold))
 						if n, ok := st.Node("nB"); !ok || !n.Unreachable {
-							evid.Fatal("lifecycle %s: the silent node was not flagged", desc)
+							fail("silent-peer-not-suspected", "after 2100 steady intervals of silence the liveness task does not flag the node")
+							continue
 						}
 						// nothing is heard: the level only grows, tick after tick, and the
 						// node stays suspected
@@ -73,10 +82,16 @@ func c12Lifecycle(run *evid.Run) (cases int) {
 							}
 							before = lvl
 						}
+						if failed {
+							continue
+						}
 					}
 					st.RemoveExpiredAt(time.Now().Add(3 * gossip.VNodeExpiry))
 					if _, ok := st.Node("nB"); ok {
-						evid.Fatal("lifecycle %s: the departed node was not swept", desc)
+						// membership did not forget the node (C11's subject): this case says
+						// nothing about the detector
+						notSwept++
+						continue
 					}
 					advance(away)
 					// the same id is back: a fresh node as far as the detector goes
